@@ -24,6 +24,7 @@ from . import boot                                    # noqa: F401
 from .runner import CaseResult, Part, exc_sig
 from . import c11_pipe as pipe
 
+import radical.utils           as ru
 import radical.pilot           as rp
 import radical.pilot.states    as rps
 import radical.pilot.constants as rpc
@@ -169,7 +170,13 @@ def cases(draw):
         tasks.append({'sandbox': draw(st.sampled_from([0, 0, 1, 2])),
                       'in': ins, 'out': outs, 'outcome': outcome,
                       'soe': draw(st.booleans())})
-    return {'tasks': tasks}
+    case = {'tasks': tasks}
+    if draw(st.integers(0, 3)) == 0:
+        # pilot-level staging (Pilot.stage_in) of a few files before the tasks are submitted
+        case['pre'] = [[draw(st.sampled_from(['pilot', 'pilot', 'session', 'resource'])),
+                        draw(st.sampled_from(['shared.dat', 'cfg/params.dat', 'data/in/x.bin']))]
+                       for _ in range(draw(st.integers(1, 3)))]
+    return case
 
 
 # short-form strings as such (DESIGN: the fuzz target, here as a Hypothesis part:
@@ -493,9 +500,21 @@ def _run(case, res, root, box):
 
     sid = 'rp.session.verif.0000'
     lay = Layout(root, sid)
-    p   = pipe.Pipe(lay.client, lay.remote)
+    pre = [(str(x[0]), str(x[1])) for x in (case.get('pre') or [])
+           if isinstance(x, (list, tuple)) and len(x) == 2 and x[0] in ('pilot', 'session', 'resource')]
+    p   = pipe.Pipe(lay.client, lay.remote, pre_stage=pre)
     box.append(p)
     assert p.sess.uid == sid
+    if pre:
+        res.label('pilot_level_stage_in_before_tasks')
+        roots = {'pilot': lay.pilot, 'session': lay.session, 'resource': lay.resource}
+        for (loc, name), got in zip(pre, p.pre_targets or []):
+            want = os.path.join(roots[loc], name)
+            have = ru.Url(got).path
+            if os.path.normpath(have) != os.path.normpath(want):
+                res.fail('pilot_stage_in_target:%s' % loc,
+                         'directive %s:///%s resolved to %s, the %s sandbox is %s'
+                         % (loc, name, got, loc, roots[loc]))
 
     # ---- descriptions
     T = []
